@@ -69,6 +69,8 @@ pub struct Profile {
     /// probability (of 256) that an evaluation has a failure set / an abort
     pub p_fail: u16,
     pub p_abort: u16,
+    /// probability (of 256) that one of the structural motifs is planted into the scenario
+    pub p_motif: u16,
 }
 
 impl Profile {
@@ -82,11 +84,12 @@ impl Profile {
             p_dep: 100,
             p_fail: 85,
             p_abort: 50,
+            p_motif: 56,
         }
     }
     pub fn bytes_needed(&self) -> usize {
         let n = self.max_slots;
-        40 + n * (6 + 2 * n) + self.max_steps * (16 + 3 * (5 * n + 12))
+        42 + n * (6 + 2 * n) + self.max_steps * (16 + 3 * (5 * n + 12))
     }
 }
 
@@ -238,5 +241,101 @@ pub fn decode(data: &[u8], prof: &Profile) -> Scenario {
             },
         });
     }
-    Scenario { cfg, slots, init, steps }
+    let mut sc = Scenario { cfg, slots, init, steps };
+    let mb = src.u8();
+    let mv = src.u8();
+    if (255 - mb as u16) < prof.p_motif {
+        plant_motif(&mut sc, mb, mv);
+    }
+    sc
+}
+
+fn set_slot(sc: &mut Scenario, i: usize, kind: Kind, deps: &[usize]) {
+    sc.slots[i].kind = kind;
+    sc.slots[i].coarse = false;
+    sc.slots[i].flaky = false;
+    for x in sc.slots[i].ign.iter_mut() {
+        *x = 0;
+    }
+    sc.init[i].active = true;
+    sc.init[i].parts = 1;
+    sc.init[i].deps = deps.iter().map(|u| (*u, 1u8)).collect();
+}
+
+/// Structures that matter for several properties but are rare under uniform generation
+/// (measured: about 1 in 100k scenarios) are planted into the first slots of the scenario; the
+/// remaining slots, their dependencies into the motif, schedules and later steps stay random.
+///  0: an up-to-date Ephemeral P that is only needed late (its consumer W is invalidated by an
+///     Always job Q finishing with a changed output) while its other consumer U was already
+///     skipped and U's dependants are on offer; P then fails (or not)
+///  1: a chain of three up-to-date Ephemerals above an Output whose other input changes late
+///  2: an Ephemeral with two consumers, one of which has a second input that fails or changes
+///     while the Ephemeral runs (concurrency)
+fn plant_motif(sc: &mut Scenario, mb: u8, mv: u8) {
+    let n = sc.slots.len();
+    let which = mv % 3;
+    let need = [6, 6, 4][which as usize];
+    if n < need {
+        return;
+    }
+    while sc.steps.len() < 2 {
+        let st = sc.steps[0].clone();
+        sc.steps.push(st);
+    }
+    // first evaluation: a clean build of the motif
+    sc.steps[0].plan.fail = 0;
+    sc.steps[0].plan.abort = None;
+    let var = mv / 3;
+    match which {
+        0 => {
+            set_slot(sc, 0, Kind::Always, &[]);
+            set_slot(sc, 1, Kind::Ephemeral, &[]);
+            set_slot(sc, 2, Kind::Output, &[1]);
+            set_slot(sc, 3, Kind::Output, &[0, 1]);
+            set_slot(sc, 4, if var & 1 == 0 { Kind::Ephemeral } else { Kind::Output }, &[2]);
+            set_slot(sc, 5, Kind::Output, &[4]);
+            let st = &mut sc.steps[1];
+            st.edits = vec![Edit::Bump(0)];
+            st.plan.abort = None;
+            st.plan.fail &= !0b111101;
+            if var & 2 == 0 {
+                st.plan.fail |= 0b10;
+            }
+            if st.plan.sched.max_running < 2 {
+                st.plan.sched.max_running = 2 + (var >> 2) % 3;
+            }
+        }
+        1 => {
+            set_slot(sc, 0, Kind::Always, &[]);
+            set_slot(sc, 1, Kind::Ephemeral, &[]);
+            set_slot(sc, 2, Kind::Ephemeral, &[1]);
+            set_slot(sc, 3, Kind::Ephemeral, &[2]);
+            set_slot(sc, 4, Kind::Output, &[0, 3]);
+            if var & 1 == 0 {
+                set_slot(sc, 5, Kind::Output, &[1]);
+            }
+            let st = &mut sc.steps[1];
+            st.edits = vec![Edit::Bump(0)];
+            st.plan.abort = None;
+            st.plan.fail &= !0b11111;
+        }
+        _ => {
+            set_slot(sc, 0, if var & 1 == 0 { Kind::Always } else { Kind::Output }, &[]);
+            set_slot(sc, 1, Kind::Ephemeral, &[]);
+            set_slot(sc, 2, Kind::Output, &[0, 1]);
+            set_slot(sc, 3, Kind::Output, &[1]);
+            let k = if var & 2 == 0 { 0 } else { 1 };
+            let st = &mut sc.steps[k];
+            st.plan.abort = None;
+            st.plan.fail &= !0b1111;
+            if var & 4 == 0 {
+                st.plan.fail |= 0b1;
+            }
+            st.plan.sched.max_running = st.plan.sched.max_running.max(2);
+            if k == 1 {
+                st.edits = if var & 1 == 0 { vec![Edit::Bump(0), Edit::Delete(3, 1)] } else { vec![Edit::Delete(0, 1), Edit::Delete(3, 1)] };
+            }
+        }
+    }
+    let _ = mb;
 }
